@@ -751,11 +751,14 @@ def application(pm, ctx):
                           ("Y[best_split.right_target, n_leaves]", "1", "the right part (new leaf) is not assigned to the recorded right target"),
                           ("k", "Y[:, best_split.leaf].argmax()", "k is not the current cluster of the split leaf")):
         expect_assign(ctx, "C08-f", ku, "Kauri.fit", body, tgt, [val], f"Kauri.fit: {tgt}", why)
-    inc = [s_ for s_ in body.body if isinstance(s_, ast.AugAssign) and norm_src(s_.target) == "n_leaves"]
+    from ..astutil import as_augassign
+    inc_pairs = [(s_, as_augassign(s_)) for s_ in body.body]
+    inc_orig = {id(a): s_ for s_, a in inc_pairs if a is not None}
+    inc = [a for s_, a in inc_pairs if a is not None and norm_src(a.target) == "n_leaves"]
     if not inc:
         ctx.unrecognised("C08-f", "Kauri.fit: n_leaves", "no increment of n_leaves in the application block")
     else:
-        i = body.body.index(inc[0])
+        i = body.body.index(inc_orig[id(inc[0])])
         uses_after = [s_ for s_ in body.body[i + 1:] for n in ast.walk(s_) if isinstance(n, ast.Name) and n.id == "n_leaves"]
         if len(inc) == 1 and isinstance(inc[0].op, ast.Add) and canon_equal(inc[0].value, "1") and not uses_after:
             ctx.ok("C08-f", "Kauri.fit: n_leaves incremented once, after the new leaf was recorded")
